@@ -488,8 +488,8 @@ def check(run):
         try:
             s2 = call(it, s, 'copy')
             l = call(it, s2, 'load_address')
-            ac = l.attrs.get('anycast') if isinstance(l, Inst) else None
-            okl = isinstance(l, Inst) and l.attrs.get('wc') is wc and l.attrs.get('hash_part') is hp and rem(it, s2) == 1 and \
+            ac = cm.field(it, l, 'anycast') if isinstance(l, Inst) else None
+            okl = isinstance(l, Inst) and cm.field(it, l, 'wc') is wc and cm.field(it, l, 'hash_part') is hp and rem(it, s2) == 1 and \
                 ((not anycast and isinstance(ac, K) and ac.v is None) or (anycast and isinstance(ac, Inst) and same(it, ac.attrs.get('depth'), K(anycast[0])) and same(it, ac.attrs.get('rewrite_pfx'), K(anycast[1]))))
             why = f'load_address -> wc {vrepr(l.attrs.get("wc"))}, anycast {ac!r}' if isinstance(l, Inst) else vrepr(l)
         except RaiseEx as e:
@@ -497,8 +497,8 @@ def check(run):
         run.check(okl, 'D4', 'Slice.load_address[addr_std' + (',anycast]' if anycast else ']') if not okl else f'addr_std-load[{tag}]', why, wl)
         try:
             p = call(it, s, 'preload_address')
-            ac = p.attrs.get('anycast') if isinstance(p, Inst) else None
-            okp = isinstance(p, Inst) and p.attrs.get('wc') is wc and p.attrs.get('hash_part') is hp and rem(it, s) == len(want) + 8 + 256 + 1 and \
+            ac = cm.field(it, p, 'anycast') if isinstance(p, Inst) else None
+            okp = isinstance(p, Inst) and cm.field(it, p, 'wc') is wc and cm.field(it, p, 'hash_part') is hp and rem(it, s) == len(want) + 8 + 256 + 1 and \
                 ((not anycast and isinstance(ac, K) and ac.v is None) or (anycast and isinstance(ac, Inst)))
             why = f'preload_address -> {vrepr(p)[:40]} anycast {ac!r}'
         except RaiseEx as e:
